@@ -51,6 +51,9 @@ def gen(tier, seed):
             ["pre: i == 0 and -2 <= x <= 4 and -2 <= y <= 3 and -2 <= z <= 3" if form != "index" else "pre: -8 <= i <= 14 and x == 0 and y == 0 and z == 0"],
             "positions outside the space (%s, %s form) raise in every accessor of RDSystem / space / kinetics and leave state and chemostats unchanged" % (kind, form), "i: int, x: int, y: int, z: int",
             viol="an out-of-range position is accepted by an accessor or modifies the state")
+    add("index_map", "c20-index-map", "index_map_rejected(a, b, c, d, e, f)", ["pre: " + " and ".join(("-2 <= %s <= 2" if (tier == "thorough" or v in "ab") else "-1 <= %s <= 1") % v for v in "abcdef")],
+        "coarse-graining maps that break a documented rule (entry < -1, no group, a missing group index, a group mixing environments) are refused by coarsegrain_system and coarsegrain_grid (3x2x1 grid, three environment layouts, every map over " + ("[-2,2]^6" if tier == "thorough" else "[-2,2]^2 x [-1,1]^4") + ")",
+        "a: int, b: int, c: int, d: int, e: int, f: int", viol="a coarse-graining map that violates the documented rules is accepted")
     for kind in ("index", "label", "object"):
         add("species_%s" % kind, "c20-unknown-species", "unknown_species_rejected(%r, sp)" % kind, ["pre: -3 <= sp <= 6"], "unknown species (%s form) raise and leave the state unchanged" % kind, "sp: int")
     for what in ("state", "state_array", "chemostats", "setter"):
@@ -68,7 +71,7 @@ def run(rec):
         fh.write("FIELD_NAMES = ['density', 'D', 'density_env', 'D_env', 'cell_vol', 'node_volume', 'edge_surface', 'edge_distance', 'time_step', 't_max', 'sampling_interval', 't_sample', 'state', 'set_state']\n")
     sys.path.insert(0, pysym.gen_dir())
     rec.assume("the offending value is the quantified parameter: strings of bounded length over a stated alphabet and unbounded integers are explored by CrossHair; dimension vectors, indices, sizes and positions in finite boxes are enumerated exhaustively in plain CPython (recorded per condition)")
-    rec.assume("coarse-graining index maps are covered by C16 (accepted iff valid); rate constants of the wrong order by C19")
+    rec.assume("rate constants of the wrong order are decided by C19; coarse-graining maps are also decided (accepted iff valid, larger shapes) by C16")
     for fn in ("valproc.process_input_dict_keys + the 11 *_from_dict readers", "valproc.process_unitvar_input (every dimensioned setter)", "UnitsSystem._check_*", "RDGridSpace.__init__/cell_env/set_boundary_conditions",
                "RDNetwork.environments", "RDScript.sampling_policy/init_state_processing", "RDSystem accessors, kinetics functions (positions, species)", "RDSystem.state/chemostats setters"):
         rec.encoded(fn)
